@@ -1,13 +1,1333 @@
-// Oracles for the two command line tools (reference formatter for gwb-dat,
-// reference mesh and VTU reader for gwb-grid).
+// Oracles for the two command line tools: a reference formatter for gwb-dat
+// (C17) and a VTU reader + reference mesh + reference tag filter for gwb-grid
+// (C18).  Nothing here shares code with the tools; the library is only used
+// through World's public interface.
 #include "sim.h"
+
+#include "world_builder/world.h"
+#include "world_builder/utilities.h"
+#include "world_builder/consts.h"
+
+#include <algorithm>
+#include <cmath>
+#include <cstring>
+#include <iostream>
+#include <memory>
+#include <set>
+#include <sstream>
 
 namespace sim
 {
-  void check_dat(const Scenario &, const Op &, const Resp &, RunResult &, int)
+  namespace
   {
+    void add(RunResult &res, const std::string &cls, const std::string &site, const std::string &detail, int op_index)
+    {
+      Violation v;
+      v.cls = cls;
+      v.site = site;
+      v.detail = detail;
+      v.op_index = op_index;
+      res.violations.push_back(v);
+    }
+
+    std::vector<std::string> split_ws(const std::string &s)
+    {
+      std::vector<std::string> t;
+      std::istringstream is(s);
+      std::string w;
+      while (is >> w)
+        t.push_back(w);
+      return t;
+    }
+
+    std::vector<std::string> split_lines(const std::string &s)
+    {
+      std::vector<std::string> l;
+      std::string cur;
+      for (char c : s)
+        {
+          if (c == '\n')
+            {
+              l.push_back(cur);
+              cur.clear();
+            }
+          else
+            cur.push_back(c);
+        }
+      if (!cur.empty())
+        l.push_back(cur);
+      return l;
+    }
+
+    bool to_double(const std::string &s, double &v)
+    {
+      // the documented format: a plain decimal or scientific number
+      if (s.empty())
+        return false;
+      char *end = nullptr;
+      v = std::strtod(s.c_str(), &end);
+      if (end == s.c_str() || *end != '\0')
+        return false;
+      // strtod accepts hex floats, inf and nan; the tools' documented input does not
+      for (char c : s)
+        if (!(std::isdigit(static_cast<unsigned char>(c)) || c == '+' || c == '-' || c == '.' || c == 'e' || c == 'E'))
+          return false;
+      return true;
+    }
+
+    bool to_uint(const std::string &s, unsigned long &v)
+    {
+      if (s.empty())
+        return false;
+      for (char c : s)
+        if (!std::isdigit(static_cast<unsigned char>(c)))
+          return false;
+      v = std::strtoul(s.c_str(), nullptr, 10);
+      return true;
+    }
+
+    std::string fmt(double v)
+    {
+      std::ostringstream o; // default formatting, as operator<<(double) on a fresh stream
+      o << v;
+      return o.str();
+    }
+
+    bool has_fault(const Op &op, int kind)
+    {
+      for (const auto &f : op.faults)
+        if (f.kind == kind)
+          return true;
+      return false;
+    }
   }
-  void check_grid(const Scenario &, const Op &, const Resp &, RunResult &, int)
+
+  // =================================================================== gwb-dat
+  void check_dat(const Scenario &s, const Op &op, const Resp &r, RunResult &res, int op_index)
   {
+    const std::string P = s.property;
+    if (op.argv.size() < 3 || r.status == 3)
+      return;
+    if (has_fault(op, simfs::F_EIO))
+      {
+        res.counters["dat_eio_recorded"]++; // the tool silently processes the prefix; the property is silent about device errors
+        return;
+      }
+    auto wf = s.files.find(op.argv[1]);
+    auto df = s.files.find(op.argv[2]);
+    if (wf == s.files.end() || df == s.files.end())
+      return;
+    const std::string delivered = simfs::delivered_bytes(op.argv[2], df->second, op.faults, 0);
+
+    // ---- the documented grammar
+    struct Row
+    {
+      std::vector<std::string> tok;
+      size_t line;
+    };
+    std::vector<Row> rows;
+    unsigned long dim = 3, compositions = 0, grain_compositions = 0, n_grains = 0;
+    bool convert_spherical = false;
+    bool option_error = false;
+    const auto lines = split_lines(delivered);
+    for (size_t li = 0; li < lines.size(); ++li)
+      {
+        std::vector<std::string> tok = split_ws(lines[li]);
+        for (auto &t : tok)
+          t.erase(std::remove(t.begin(), t.end(), ','), t.end());
+        if (tok.empty())
+          continue;
+        if (tok[0] == "#")
+          {
+            // option lines: "# key [words] = value"; anything else after '#' is a comment
+            auto is = [&](std::initializer_list<const char *> words) -> bool
+            {
+              size_t k = 1;
+              for (const char *w : words)
+                {
+                  if (k >= tok.size() || tok[k] != w)
+                    return false;
+                  ++k;
+                }
+              return k < tok.size() && tok[k] == "=";
+            };
+            auto value = [&](size_t nwords) -> std::string
+            {
+              return (nwords + 2 < tok.size()) ? tok[nwords + 2] : std::string();
+            };
+            unsigned long v = 0;
+            if (is({"dim"}))
+              {
+                if (to_uint(value(1), v)) dim = v;
+                else option_error = true;
+              }
+            else if (is({"compositions"}))
+              {
+                if (to_uint(value(1), v)) compositions = v;
+                else option_error = true;
+              }
+            else if (is({"grain", "compositions"}))
+              {
+                if (to_uint(value(2), v)) grain_compositions = v;
+                else option_error = true;
+              }
+            else if (is({"number", "of", "grains"}))
+              {
+                if (to_uint(value(3), v)) n_grains = v;
+                else option_error = true;
+              }
+            else if (is({"convert", "spherical"}))
+              {
+                if (value(2) == "true")
+                  convert_spherical = true;
+              }
+            continue;
+          }
+        rows.push_back({tok, li + 1});
+      }
+    if (option_error)
+      {
+        // an option line without a usable value: the tool must fail visibly (or ignore the line); nothing to compare
+        res.counters["dat_option_error"]++;
+        if (r.status == 0 && r.rc == 0)
+          res.counters["dat_option_error_accepted"]++;
+        return;
+      }
+    if (compositions > 64 || grain_compositions > 16 || n_grains > 64)
+      return;
+    const std::vector<std::string> out_lines = split_lines(r.out);
+    if (!(dim == 2 || dim == 3))
+      {
+        // documented: a message, no table
+        if (r.status == 0 && r.out.find("can only be run in 2d and 3d") == std::string::npos)
+          add(res, P + "/dim", "dim-other", "dim = " + std::to_string(dim) + " was not refused", op_index);
+        return;
+      }
+    if (dim == 2 && convert_spherical)
+      {
+        if (r.status == 0)
+          add(res, P + "/silently-misread", "convert-2d", "'convert spherical' with dim = 2 must be refused, the tool returned normally", op_index);
+        return;
+      }
+
+    // ---- the reference table
+    std::vector<std::string> header;
+    if (dim == 2)
+      header = {"x", "z", "d", "T", "vx", "vz"};
+    else
+      header = {"x", "y", "z", "d", "T", "vx", "vy", "vz"};
+    for (unsigned long c = 0; c < compositions; ++c)
+      header.push_back("c" + std::to_string(c));
+    for (unsigned long gc = 0; gc < grain_compositions; ++gc)
+      for (unsigned long g = 0; g < n_grains; ++g)
+        {
+          header.push_back("gs" + std::to_string(gc) + "-" + std::to_string(g));
+          for (int a = 0; a < 3; ++a)
+            for (int b = 0; b < 3; ++b)
+              header.push_back("gm" + std::to_string(gc) + "-" + std::to_string(g) + "[" + std::to_string(a) + ":" + std::to_string(b) + "]");
+        }
+    header.push_back("tag");
+
+    std::vector<Prop> props;
+    props.push_back(Prop{{1, 0, 0}});
+    props.push_back(Prop{{5, 0, 0}});
+    for (unsigned long c = 0; c < compositions; ++c)
+      props.push_back(Prop{{2, static_cast<unsigned>(c), 0}});
+    for (unsigned long gc = 0; gc < grain_compositions; ++gc)
+      props.push_back(Prop{{3, static_cast<unsigned>(gc), static_cast<unsigned>(n_grains)}});
+    props.push_back(Prop{{4, 0, 0}});
+
+    std::unique_ptr<WorldBuilder::World> world;
+    try
+      {
+        simfs::set_faults({});
+        world.reset(new WorldBuilder::World(op.argv[1], false, "", 1, true));
+      }
+    catch (std::exception &)
+      {
+        if (r.status == 0)
+          add(res, P + "/silently-misread", "world", "the world file cannot be built but the tool returned normally", op_index);
+        return;
+      }
+
+    // expected rows (strings by header name) until the first malformed row
+    std::vector<std::vector<std::string>> expected;
+    std::vector<std::vector<double>> raw_values;
+    std::vector<std::vector<std::string>> raw_tokens;
+    bool malformed = false;
+    size_t malformed_line = 0;
+    for (const auto &row : rows)
+      {
+        bool ok = row.tok.size() == dim + 1;
+        std::vector<double> num(row.tok.size(), 0.0);
+        for (size_t k = 0; ok && k < row.tok.size(); ++k)
+          ok = to_double(row.tok[k], num[k]);
+        std::vector<double> v;
+        if (ok)
+          {
+            try
+              {
+                if (dim == 2)
+                  v = world->properties(std::array<double, 2> {{num[0], num[1]}}, num[2], props);
+                else
+                  {
+                    std::array<double, 3> p = {{num[0], num[1], num[2]}};
+                    if (convert_spherical)
+                      {
+                        // (radius, longitude, latitude in degrees) through the library's own public conversion: any
+                        // other correct formula differs in the last bits, which changes answers on feature boundaries
+                        p = {{num[0], num[1] *(WorldBuilder::Consts::PI/180.), num[2] *(WorldBuilder::Consts::PI/180.)}};
+                        p = WorldBuilder::Utilities::spherical_to_cartesian_coordinates(p).get_array();
+                      }
+                    v = world->properties(p, num[3], props);
+                  }
+              }
+            catch (std::exception &)
+              {
+                ok = false; // the library refuses this point: the tool has to fail visibly here as well
+              }
+          }
+        if (!ok)
+          {
+            malformed = true;
+            malformed_line = row.line;
+            break;
+          }
+        raw_values.push_back(v);
+        raw_tokens.push_back(row.tok);
+        std::vector<std::string> e(row.tok.begin(), row.tok.end()); // coordinates and depth are echoed verbatim
+        e.push_back(fmt(v[0]));
+        e.push_back(fmt(v[1]));
+        if (dim == 3)
+          {
+            e.push_back(fmt(v[2]));
+            e.push_back(fmt(v[3]));
+          }
+        else
+          e.push_back(fmt(v[2]));
+        size_t off = 4;
+        for (unsigned long c = 0; c < compositions; ++c)
+          e.push_back(fmt(v[off++]));
+        for (unsigned long gc = 0; gc < grain_compositions; ++gc)
+          {
+            for (unsigned long g = 0; g < n_grains; ++g)
+              {
+                e.push_back(fmt(v[off + g]));
+                for (int k = 0; k < 9; ++k)
+                  e.push_back(fmt(v[off + n_grains + 9 * g + static_cast<unsigned long>(k)]));
+              }
+            off += 10 * n_grains;
+          }
+        e.push_back(fmt(v[off]));
+        expected.push_back(e);
+      }
+
+    // ---- what the tool printed
+    if (out_lines.empty())
+      {
+        if (r.status == 0)
+          add(res, P + "/column", "no-header", "no header line was printed", op_index);
+        return;
+      }
+    std::vector<std::string> got_header = split_ws(out_lines[0]);
+    if (!got_header.empty() && got_header[0] == "#")
+      got_header.erase(got_header.begin());
+    std::vector<std::vector<std::string>> got;
+    for (size_t i = 1; i < out_lines.size(); ++i)
+      {
+        std::vector<std::string> t = split_ws(out_lines[i]);
+        if (!t.empty())
+          got.push_back(t);
+      }
+    res.counters["evaluations"] += static_cast<long>(expected.size());
+    res.counters["dat_rows_compared"] += static_cast<long>(expected.size());
+    if (!expected.empty())
+      res.counters["nontrivial"] = 1;
+
+    // malformed rows must be reported, never silently misread
+    if (malformed)
+      {
+        res.counters["dat_malformed_inputs"]++;
+        if (r.status == 0 && r.rc == 0)
+          {
+            add(res, P + "/silently-misread", "malformed-row",
+                "line " + std::to_string(malformed_line) + " of the data file is malformed (or is refused by the library) but gwb-dat returned normally and printed "
+                + std::to_string(got.size()) + " rows", op_index);
+            return;
+          }
+        // the tool echoes the coordinates before it converts them, so the failing row may appear as a torn line
+        if (got.size() == expected.size() + 1 && got.back().size() <= dim + 1)
+          got.pop_back();
+        if (got.size() > expected.size())
+          {
+            add(res, P + "/silently-misread", "rows-after-malformed", "rows were printed at or after the malformed line " + std::to_string(malformed_line), op_index);
+            return;
+          }
+      }
+    else if (r.status != 0)
+      {
+        add(res, P + "/rejected-valid", "wellformed", "every row is well formed but gwb-dat failed: " + r.what.substr(0, 300), op_index);
+        return;
+      }
+
+    // ---- compare, first as documented, then under the listed known defects
+    auto compare = [&](const std::vector<std::string> &hdr, const std::vector<std::vector<std::string>> &exp, std::string &why, std::string &site) -> bool
+    {
+      if (got_header != hdr)
+        {
+          std::string a, b;
+          for (const auto &x : got_header) a += x + " ";
+          for (const auto &x : hdr) b += x + " ";
+          why = "header is [" + a + "] but the columns are [" + b + "]";
+          site = "header";
+          return false;
+        }
+      if (got.size() != exp.size())
+        {
+          why = std::to_string(got.size()) + " rows printed, " + std::to_string(exp.size()) + " expected";
+          site = "row-count";
+          return false;
+        }
+      for (size_t i = 0; i < exp.size(); ++i)
+        {
+          if (got[i].size() != exp[i].size())
+            {
+              why = "row " + std::to_string(i) + " has " + std::to_string(got[i].size()) + " values for " + std::to_string(exp[i].size()) + " columns";
+              site = "row-width";
+              return false;
+            }
+          for (size_t k = 0; k < exp[i].size(); ++k)
+            if (got[i][k] != exp[i][k])
+              {
+                why = "row " + std::to_string(i) + " column '" + (k < hdr.size() ? hdr[k] : "?") + "' prints " + got[i][k] + " but the library's value is " + exp[i][k];
+                site = "column:" + std::string(k < hdr.size() ? hdr[k].substr(0, 2) : "?");
+                return false;
+              }
+        }
+      return true;
+    };
+    std::string why, site;
+    if (compare(header, expected, why, site))
+      return;
+    // known defect (dim = 3): the header announces a column "g" for which no value is printed
+    if (dim == 3)
+      {
+        std::vector<std::string> h2 = header;
+        h2.insert(h2.begin() + 4, "g");
+        // values still line up with the documented columns; only the header has the extra name
+        std::string w2, s2;
+        std::vector<std::string> saved = got_header;
+        if (got_header == h2)
+          {
+            got_header = header;
+            const bool rest_ok = compare(header, expected, w2, s2);
+            got_header = saved;
+            if (rest_ok)
+              {
+                add(res, P + "/column", "dim3:header-extra-g", "dim = 3: the header lists a column 'g' (x y z d g T ...) for which no value is printed; all values match the documented columns", op_index);
+                return;
+              }
+            why = w2;
+            site = s2;
+          }
+      }
+    // known defect (dim = 2): compositions are read from slot 3+c although the velocity block occupies 1..3,
+    // so every composition and grain column is shifted by one slot and the last composition is never printed
+    if (dim == 2 && (compositions > 0 || grain_compositions * n_grains > 0))
+      {
+        std::vector<std::vector<std::string>> shifted;
+        for (size_t ri = 0; ri < raw_values.size(); ++ri)
+          {
+            const std::vector<double> &o = raw_values[ri];
+            std::vector<std::string> t(raw_tokens[ri].begin(), raw_tokens[ri].end());
+            t.push_back(fmt(o[0]));
+            t.push_back(fmt(o[1]));
+            t.push_back(fmt(o[2]));
+            for (unsigned long c = 0; c < compositions; ++c)
+              t.push_back(fmt(o[3 + c]));
+            for (unsigned long gc = 0; gc < grain_compositions; ++gc)
+              {
+                const size_t start = 3 + compositions + gc * n_grains * 10;
+                for (unsigned long g = 0; g < n_grains; ++g)
+                  {
+                    t.push_back(fmt(o[start + g]));
+                    for (unsigned long k = 0; k < 9; ++k)
+                      t.push_back(fmt(o[start + n_grains + g * 9 + k]));
+                  }
+              }
+            t.push_back(fmt(o.back()));
+            shifted.push_back(t);
+          }
+        std::string w2, s2;
+        if (compare(header, shifted, w2, s2))
+          {
+            add(res, P + "/column", "dim2:composition-shift", "dim = 2: composition and grain columns are printed one slot early (c0 shows the zero third velocity component, the last requested value is dropped)", op_index);
+            return;
+          }
+      }
+    add(res, P + "/column", site, why, op_index);
+  }
+
+  // =================================================================== gwb-grid
+  namespace
+  {
+    struct Array
+    {
+      std::string name, type, format;
+      int ncomp = 1;
+      std::vector<double> v;
+      bool ok = false;
+    };
+
+    struct Vtu
+    {
+      bool ok = false;
+      bool appended = false;
+      bool exact = false; // values are stored as exact doubles
+      std::string error;
+      long npoints = -1, ncells = -1;
+      std::vector<Array> point_data;
+      Array points, connectivity, offsets, types;
+    };
+
+    std::string attr(const std::string &tag, const std::string &name)
+    {
+      const std::string key = name + "=\"";
+      size_t p = 0;
+      while ((p = tag.find(key, p)) != std::string::npos)
+        {
+          if (p == 0 || tag[p - 1] == ' ' || tag[p - 1] == '\t' || tag[p - 1] == '\n')
+            {
+              const size_t b = p + key.size();
+              const size_t e = tag.find('"', b);
+              if (e == std::string::npos)
+                return "";
+              return tag.substr(b, e - b);
+            }
+          ++p;
+        }
+      return "";
+    }
+
+    bool b64_decode(const std::string &in, std::string &out)
+    {
+      static int T[256];
+      static bool init = false;
+      if (!init)
+        {
+          for (int i = 0; i < 256; ++i) T[i] = -1;
+          const char *al = "ABCDEFGHIJKLMNOPQRSTUVWXYZabcdefghijklmnopqrstuvwxyz0123456789+/";
+          for (int i = 0; i < 64; ++i) T[static_cast<unsigned char>(al[i])] = i;
+          init = true;
+        }
+      out.clear();
+      unsigned val = 0;
+      int bits = -8;
+      for (unsigned char c : in)
+        {
+          if (c == '=')
+            break;
+          if (T[c] < 0)
+            return false;
+          val = (val << 6) | static_cast<unsigned>(T[c]);
+          bits += 6;
+          if (bits >= 0)
+            {
+              out.push_back(static_cast<char>((val >> bits) & 0xff));
+              bits -= 8;
+            }
+        }
+      return true;
+    }
+
+    bool decode_array(const std::string &tag, const std::string &body, Array &a, std::string &error)
+    {
+      a.name = attr(tag, "Name");
+      a.type = attr(tag, "type");
+      a.format = attr(tag, "format");
+      const std::string nc = attr(tag, "NumberOfComponents");
+      a.ncomp = nc.empty() ? 1 : std::atoi(nc.c_str());
+      if (a.format == "ascii")
+        {
+          std::istringstream is(body);
+          std::string w;
+          while (is >> w)
+            {
+              char *end = nullptr;
+              const double x = std::strtod(w.c_str(), &end);
+              if (end == w.c_str() || *end != '\0')
+                {
+                  error = "array '" + a.name + "': token '" + w.substr(0, 20) + "' is not a number";
+                  return false;
+                }
+              a.v.push_back(x);
+            }
+          a.ok = true;
+          return true;
+        }
+      if (a.format == "binary")
+        {
+          std::string text;
+          for (char c : body)
+            if (!std::isspace(static_cast<unsigned char>(c)))
+              text.push_back(c);
+          if (text.size() < 12)
+            {
+              error = "array '" + a.name + "': binary payload too short";
+              return false;
+            }
+          std::string hdr, payload;
+          if (!b64_decode(text.substr(0, 12), hdr) || hdr.size() != 8 || !b64_decode(text.substr(12), payload))
+            {
+              error = "array '" + a.name + "': not base64";
+              return false;
+            }
+          uint64_t nbytes = 0;
+          std::memcpy(&nbytes, hdr.data(), 8);
+          if (nbytes != payload.size())
+            {
+              error = "array '" + a.name + "': header announces " + std::to_string(nbytes) + " bytes, payload has " + std::to_string(payload.size());
+              return false;
+            }
+          if (a.type == "Float64")
+            {
+              a.v.resize(payload.size() / 8);
+              if (!a.v.empty())
+                std::memcpy(a.v.data(), payload.data(), a.v.size() * 8);
+            }
+          else if (a.type == "Int64")
+            {
+              std::vector<int64_t> t(payload.size() / 8);
+              if (!t.empty())
+                std::memcpy(t.data(), payload.data(), t.size() * 8);
+              a.v.assign(t.begin(), t.end());
+            }
+          else if (a.type == "Int8")
+            {
+              for (char c : payload)
+                a.v.push_back(static_cast<double>(static_cast<signed char>(c)));
+            }
+          else
+            {
+              error = "array '" + a.name + "': unexpected type " + a.type;
+              return false;
+            }
+          a.ok = true;
+          return true;
+        }
+      error = "array '" + a.name + "': unexpected format '" + a.format + "'";
+      return false;
+    }
+
+    Vtu parse_vtu(const std::string &t)
+    {
+      Vtu v;
+      if (t.compare(0, 5, "<?xml") != 0)
+        {
+          v.error = "does not start with an XML declaration";
+          return v;
+        }
+      const size_t vf = t.find("<VTKFile");
+      if (vf == std::string::npos || t.find("</VTKFile>") == std::string::npos)
+        {
+          v.error = "no VTKFile element";
+          return v;
+        }
+      const std::string vtag = t.substr(vf, t.find('>', vf) - vf);
+      if (attr(vtag, "type") != "UnstructuredGrid" || attr(vtag, "byte_order") != "LittleEndian")
+        {
+          v.error = "VTKFile attributes";
+          return v;
+        }
+      const size_t pc = t.find("<Piece");
+      if (pc == std::string::npos)
+        {
+          v.error = "no Piece element";
+          return v;
+        }
+      const std::string ptag = t.substr(pc, t.find('>', pc) - pc);
+      v.npoints = std::atol(attr(ptag, "NumberOfPoints").c_str());
+      v.ncells = std::atol(attr(ptag, "NumberOfCells").c_str());
+      if (attr(ptag, "NumberOfPoints").empty() || attr(ptag, "NumberOfCells").empty())
+        {
+          v.error = "Piece lacks NumberOfPoints/NumberOfCells";
+          return v;
+        }
+      if (t.find("<AppendedData") != std::string::npos)
+        {
+          v.appended = true;
+          v.ok = true; // appended formats: only the skeleton is checked
+          for (const char *e : {"<PointData>", "</PointData>", "<Points>", "</Points>", "<Cells>", "</Cells>", "</Piece>", "</UnstructuredGrid>"})
+            if (t.find(e) == std::string::npos)
+              {
+                v.ok = false;
+                v.error = std::string("missing ") + e;
+              }
+          return v;
+        }
+      // sections
+      auto section = [&](const std::string &name, size_t &b, size_t &e) -> bool
+      {
+        b = t.find("<" + name + ">");
+        e = t.find("</" + name + ">");
+        return b != std::string::npos && e != std::string::npos && b < e;
+      };
+      size_t pdb, pde, ptb, pte, cb, ce;
+      if (!section("PointData", pdb, pde) || !section("Points", ptb, pte) || !section("Cells", cb, ce))
+        {
+          v.error = "missing PointData/Points/Cells section";
+          return v;
+        }
+      auto arrays = [&](size_t b, size_t e, std::vector<Array> &out) -> bool
+      {
+        size_t p = b;
+        for (;;)
+          {
+            const size_t a = t.find("<DataArray", p);
+            if (a == std::string::npos || a >= e)
+              return true;
+            const size_t te = t.find('>', a);
+            const size_t ce2 = t.find("</DataArray>", te);
+            if (te == std::string::npos || ce2 == std::string::npos || ce2 > e)
+              {
+                v.error = "unterminated DataArray";
+                return false;
+              }
+            Array arr;
+            if (!decode_array(t.substr(a, te - a), t.substr(te + 1, ce2 - te - 1), arr, v.error))
+              return false;
+            out.push_back(arr);
+            p = ce2 + 12;
+          }
+      };
+      std::vector<Array> pts, cells;
+      if (!arrays(pdb, pde, v.point_data) || !arrays(ptb, pte, pts) || !arrays(cb, ce, cells))
+        return v;
+      if (pts.size() != 1)
+        {
+          v.error = "Points must hold exactly one DataArray";
+          return v;
+        }
+      v.points = pts[0];
+      for (auto &c : cells)
+        {
+          if (c.name == "connectivity") v.connectivity = c;
+          else if (c.name == "offsets") v.offsets = c;
+          else if (c.name == "types") v.types = c;
+        }
+      if (!v.connectivity.ok || !v.offsets.ok || !v.types.ok)
+        {
+          v.error = "Cells lacks connectivity/offsets/types";
+          return v;
+        }
+      v.exact = v.points.format == "binary";
+      v.ok = true;
+      return v;
+    }
+
+    struct GridFile
+    {
+      std::string type = "chunk", format = "ASCII";
+      long dim = 3, compositions = 0;
+      double x_min = NAN, x_max = NAN, y_min = NAN, y_max = NAN, z_min = NAN, z_max = NAN;
+      long nx = -1, ny = -1, nz = -1;
+      bool ok = true;
+    };
+
+    GridFile parse_grid(const std::string &text, long max_resolution)
+    {
+      GridFile g;
+      for (const auto &line : split_lines(text))
+        {
+          const auto tok = split_ws(line);
+          if (tok.empty() || tok[0] == "#" || tok[0][0] == '#')
+            continue;
+          if (tok.size() < 3 || tok[1] != "=")
+            continue;
+          const std::string &k = tok[0], &val = tok[2];
+          double d = 0;
+          unsigned long u = 0;
+          if (k == "grid_type") g.type = val;
+          else if (k == "vtu_output_format") g.format = val;
+          else if (k == "dim" && to_uint(val, u)) g.dim = static_cast<long>(u);
+          else if (k == "compositions" && to_uint(val, u)) g.compositions = static_cast<long>(u);
+          else if (k == "x_min" && to_double(val, d)) g.x_min = d;
+          else if (k == "x_max" && to_double(val, d)) g.x_max = d;
+          else if (k == "y_min" && to_double(val, d)) g.y_min = d;
+          else if (k == "y_max" && to_double(val, d)) g.y_max = d;
+          else if (k == "z_min" && to_double(val, d)) g.z_min = d;
+          else if (k == "z_max" && to_double(val, d)) g.z_max = d;
+          else if (k == "n_cell_x" && to_uint(val, u)) g.nx = std::min(static_cast<long>(u), max_resolution);
+          else if (k == "n_cell_y" && to_uint(val, u)) g.ny = std::min(static_cast<long>(u), max_resolution);
+          else if (k == "n_cell_z" && to_uint(val, u)) g.nz = std::min(static_cast<long>(u), max_resolution);
+        }
+      return g;
+    }
+
+    const Array *find_array(const Vtu &v, const std::string &name)
+    {
+      for (const auto &a : v.point_data)
+        if (a.name == name)
+          return &a;
+      return nullptr;
+    }
+
+    bool close(double a, double b, double rel, double scale)
+    {
+      return std::fabs(a - b) <= rel * std::max(scale, std::max(std::fabs(a), std::fabs(b)));
+    }
+
+    // structural checks common to all files
+    bool structure_ok(const Vtu &v, long dim, long compositions, std::string &why)
+    {
+      const long np = v.npoints, nc = v.ncells;
+      if (static_cast<long>(v.points.v.size()) != 3 * np || v.points.ncomp != 3)
+        {
+          why = "Points has " + std::to_string(v.points.v.size()) + " values for " + std::to_string(np) + " points";
+          return false;
+        }
+      const long per_cell = dim == 2 ? 4 : 8;
+      if (static_cast<long>(v.connectivity.v.size()) != per_cell * nc || static_cast<long>(v.offsets.v.size()) != nc || static_cast<long>(v.types.v.size()) != nc)
+        {
+          why = "Cells arrays have lengths " + std::to_string(v.connectivity.v.size()) + "/" + std::to_string(v.offsets.v.size()) + "/" + std::to_string(v.types.v.size())
+                + " for " + std::to_string(nc) + " cells";
+          return false;
+        }
+      for (long i = 0; i < nc; ++i)
+        {
+          if (v.offsets.v[static_cast<size_t>(i)] != static_cast<double>((i + 1) * per_cell))
+            {
+              why = "offsets[" + std::to_string(i) + "] = " + fmt(v.offsets.v[static_cast<size_t>(i)]);
+              return false;
+            }
+          if (v.types.v[static_cast<size_t>(i)] != (dim == 2 ? 9 : 12))
+            {
+              why = "cell type " + fmt(v.types.v[static_cast<size_t>(i)]);
+              return false;
+            }
+        }
+      for (double c : v.connectivity.v)
+        if (!(c >= 0 && c < np) || c != std::floor(c))
+          {
+            why = "connectivity index " + fmt(c) + " with " + std::to_string(np) + " points";
+            return false;
+          }
+      // data arrays, in the documented order
+      std::vector<std::pair<std::string, int>> want = {{"Depth", 1}, {"Temperature", 1}, {"velocity", 3}, {"Tag", 1}};
+      for (long c = 0; c < compositions; ++c)
+        want.push_back({"Composition " + std::to_string(c), 1});
+      if (v.point_data.size() != want.size())
+        {
+          why = std::to_string(v.point_data.size()) + " data arrays, " + std::to_string(want.size()) + " expected";
+          return false;
+        }
+      for (size_t i = 0; i < want.size(); ++i)
+        {
+          const Array &a = v.point_data[i];
+          if (a.name != want[i].first || a.ncomp != want[i].second || static_cast<long>(a.v.size()) != np * want[i].second)
+            {
+              why = "data array " + std::to_string(i) + " is '" + a.name + "' with " + std::to_string(a.v.size()) + " values (expected '" + want[i].first + "', "
+                    + std::to_string(np * want[i].second) + ")";
+              return false;
+            }
+        }
+      return true;
+    }
+  }
+
+  void check_grid(const Scenario &s, const Op &op, const Resp &r, RunResult &res, int op_index)
+  {
+    const std::string P = s.property;
+    if (r.status == 3 || op.argv.size() < 3)
+      return;
+    // command line
+    bool filtered = false, by_tag = false;
+    long max_resolution = 4294967295L;
+    std::vector<std::string> files;
+    for (size_t i = 1; i < op.argv.size(); ++i)
+      {
+        if (op.argv[i] == "-j" || op.argv[i] == "--resolution-limit")
+          {
+            if (op.argv[i] == "--resolution-limit" && i + 1 < op.argv.size())
+              max_resolution = std::atol(op.argv[i + 1].c_str());
+            ++i;
+          }
+        else if (op.argv[i] == "--filtered") filtered = true;
+        else if (op.argv[i] == "--by-tag") by_tag = true;
+        else files.push_back(op.argv[i]);
+      }
+    if (files.size() != 2)
+      return;
+    auto wf = s.files.find(files[0]);
+    auto gf = s.files.find(files[1]);
+    if (wf == s.files.end() || gf == s.files.end())
+      return;
+    const GridFile g = parse_grid(gf->second, max_resolution);
+    if (r.status != 0 || r.rc != 0)
+      {
+        add(res, P + "/tool-failed", "grid", "gwb-grid failed on a grammatical grid file: " + (r.what.empty() ? r.err.substr(0, 300) : r.what.substr(0, 300)), op_index);
+        return;
+      }
+    std::string base = files[0].substr(files[0].find_last_of("/\\") + 1);
+    base = base.substr(0, base.find_last_of('.'));
+    auto mf = r.written.find(base + ".vtu");
+    if (mf == r.written.end())
+      {
+        add(res, P + "/missing-file", "main", "no file " + base + ".vtu was written", op_index);
+        return;
+      }
+    const Vtu v = parse_vtu(mf->second);
+    res.counters["evaluations"]++;
+    if (!v.ok)
+      {
+        add(res, P + "/malformed-vtu", "main", base + ".vtu: " + v.error, op_index);
+        return;
+      }
+    res.counters["nontrivial"] = 1;
+    res.counters["vtu_files_parsed"]++;
+    if (v.appended)
+      {
+        res.counters["vtu_appended_skeleton_only"]++;
+        return;
+      }
+    std::string why;
+    if (!structure_ok(v, g.dim, g.compositions, why))
+      {
+        add(res, P + "/malformed-vtu", "structure", base + ".vtu: " + why, op_index);
+        return;
+      }
+    const double tol = v.exact ? 1e-9 : 2e-5;
+    const long np = v.npoints;
+    const Array &depth = *find_array(v, "Depth");
+
+    // ---- reference mesh: node set, cells, depth
+    const double top = g.z_max;
+    const bool lattice = g.type == "cartesian" || g.type == "chunk" || g.type == "annulus";
+    long n_t = 0;
+    if (g.type == "annulus")
+      n_t = static_cast<long>((2.0 * M_PI * g.z_max) / ((g.z_max - g.z_min) / static_cast<double>(g.nz)));
+    long exp_points = 0, exp_cells = 0;
+    const long ny_eff = g.dim == 3 ? g.ny : 0;
+    if (g.type == "cartesian" || g.type == "chunk")
+      {
+        exp_points = (g.nx + 1) * (g.nz + 1) * (g.dim == 3 ? g.ny + 1 : 1);
+        exp_cells = g.nx * g.nz * (g.dim == 3 ? g.ny : 1);
+      }
+    else if (g.type == "annulus")
+      {
+        exp_points = n_t * (g.nz + 1);
+        exp_cells = n_t * g.nz;
+      }
+    else if (g.type == "sphere")
+      {
+        exp_points = (12 * g.nx * g.nx + 2) * (g.nz + 1);
+        exp_cells = 12 * g.nx * g.nx * g.nz;
+      }
+    if (np != exp_points || v.ncells != exp_cells)
+      {
+        add(res, P + "/mesh", "counts", base + ".vtu has " + std::to_string(np) + " points and " + std::to_string(v.ncells) + " cells; the grid file asks for "
+            + std::to_string(exp_points) + " and " + std::to_string(exp_cells) + " (" + g.type + ", dim " + std::to_string(g.dim) + ")", op_index);
+        return;
+      }
+    const double deg = M_PI / 180.0;
+    std::vector<long> node_index(static_cast<size_t>(np), -1); // lattice index of each node
+    const long sx = g.nx + 1, sy = ny_eff + 1, sz = g.nz + 1;
+    const double extent = std::max(std::fabs(g.z_max), std::max(std::fabs(g.x_max - g.x_min), std::fabs(g.z_max - g.z_min)));
+    if (lattice)
+      {
+        std::vector<char> seen(static_cast<size_t>(g.type == "annulus" ? n_t * sz : sx * sy * sz), 0);
+        for (long i = 0; i < np; ++i)
+          {
+            const double px = v.points.v[static_cast<size_t>(3 * i)], py = v.points.v[static_cast<size_t>(3 * i + 1)], pz = v.points.v[static_cast<size_t>(3 * i + 2)];
+            double a = 0, b = 0, c = 0; // lattice coordinates (x|lon, y|lat, z|radius)
+            double exp_depth = 0;
+            long ia = 0, ib = 0, ic = 0;
+            bool ok = true;
+            if (g.type == "cartesian")
+              {
+                a = px;
+                b = g.dim == 3 ? py : 0;
+                c = g.dim == 3 ? pz : py;
+                if (g.dim == 2 && pz != 0)
+                  ok = false;
+                const double dx = (g.x_max - g.x_min) / static_cast<double>(g.nx), dz = (g.z_max - g.z_min) / static_cast<double>(g.nz);
+                const double dy = g.dim == 3 ? (g.y_max - g.y_min) / static_cast<double>(g.ny) : 1;
+                ia = std::lround((a - g.x_min) / dx);
+                ic = std::lround((c - g.z_min) / dz);
+                ib = g.dim == 3 ? std::lround((b - g.y_min) / dy) : 0;
+                ok = ok && ia >= 0 && ia <= g.nx && ic >= 0 && ic <= g.nz && ib >= 0 && ib <= ny_eff
+                     && close(a, g.x_min + static_cast<double>(ia) * dx, tol, extent) && close(c, g.z_min + static_cast<double>(ic) * dz, tol, extent)
+                     && (g.dim == 2 || close(b, g.y_min + static_cast<double>(ib) * dy, tol, extent));
+                exp_depth = top - c;
+              }
+            else if (g.type == "chunk")
+              {
+                const double rad = std::sqrt(px * px + py * py + pz * pz);
+                double lon, lat = 0;
+                if (g.dim == 2)
+                  {
+                    lon = std::atan2(py, px);
+                    if (pz != 0)
+                      ok = false;
+                  }
+                else
+                  {
+                    lon = std::atan2(py, px);
+                    lat = rad > 0 ? std::asin(std::max(-1.0, std::min(1.0, pz / rad))) : 0;
+                  }
+                const double dlon = (g.x_max - g.x_min) * deg / static_cast<double>(g.nx), dr = (g.z_max - g.z_min) / static_cast<double>(g.nz);
+                const double dlat = g.dim == 3 ? (g.y_max - g.y_min) * deg / static_cast<double>(g.ny) : 1;
+                ic = std::lround((rad - g.z_min) / dr);
+                ib = g.dim == 3 ? std::lround((lat - g.y_min * deg) / dlat) : 0;
+                bool found = false;
+                for (int m = -2; m <= 2 && !found; ++m)
+                  {
+                    const double l = lon + 2.0 * M_PI * m;
+                    const long cand = std::lround((l - g.x_min * deg) / dlon);
+                    if (cand >= 0 && cand <= g.nx && std::fabs(l - (g.x_min * deg + static_cast<double>(cand) * dlon)) <= std::max(tol * 10, 1e-7))
+                      {
+                        ia = cand;
+                        found = true;
+                      }
+                  }
+                // at the poles of a 3D chunk the longitude is undefined
+                if (!found && g.dim == 3 && std::fabs(std::fabs(lat) - M_PI / 2) < 1e-6)
+                  {
+                    found = true;
+                    ia = -1;
+                  }
+                ok = ok && found && ic >= 0 && ic <= g.nz && ib >= 0 && ib <= ny_eff && close(rad, g.z_min + static_cast<double>(ic) * dr, tol, extent)
+                     && (g.dim == 2 || std::fabs(lat - (g.y_min * deg + static_cast<double>(ib) * dlat)) <= std::max(tol * 10, 1e-7));
+                exp_depth = top - rad;
+              }
+            else // annulus
+              {
+                const double rad = std::sqrt(px * px + py * py);
+                double th = std::atan2(py, px);
+                if (th < -1e-12)
+                  th += 2.0 * M_PI;
+                const double dr = (g.z_max - g.z_min) / static_cast<double>(g.nz);
+                ia = std::lround(th / (2.0 * M_PI) * static_cast<double>(n_t)) % n_t;
+                ic = std::lround((rad - g.z_min) / dr);
+                ib = 0;
+                const double th_ref = 2.0 * M_PI * static_cast<double>(ia) / static_cast<double>(n_t);
+                double dth = std::fabs(th - th_ref);
+                dth = std::min(dth, std::fabs(dth - 2.0 * M_PI));
+                ok = pz == 0 && ic >= 0 && ic <= g.nz && close(rad, g.z_min + static_cast<double>(ic) * dr, tol, extent) && dth <= std::max(tol * 10, 1e-7);
+                exp_depth = top - rad;
+              }
+            if (!ok)
+              {
+                std::ostringstream o;
+                o.precision(17);
+                o << base << ".vtu node " << i << " at (" << px << "," << py << "," << pz << ") is not a node of the requested " << g.type << " lattice";
+                add(res, P + "/mesh", "node", o.str(), op_index);
+                return;
+              }
+            if (!close(depth.v[static_cast<size_t>(i)], exp_depth, v.exact ? 1e-8 : 2e-5, extent))
+              {
+                std::ostringstream o;
+                o.precision(17);
+                o << base << ".vtu node " << i << ": Depth = " << depth.v[static_cast<size_t>(i)] << " but the node is " << exp_depth << " below the top of the grid";
+                add(res, P + "/depth", "depth", o.str(), op_index);
+                return;
+              }
+            if (ia >= 0)
+              {
+                const long idx = g.type == "annulus" ? ia * sz + ic : (ia * sy + ib) * sz + ic;
+                node_index[static_cast<size_t>(i)] = idx;
+                if (seen[static_cast<size_t>(idx)])
+                  {
+                    add(res, P + "/mesh", "duplicate-node", base + ".vtu: lattice node " + std::to_string(idx) + " appears twice", op_index);
+                    return;
+                  }
+                seen[static_cast<size_t>(idx)] = 1;
+              }
+          }
+        // every cell = the corners of one lattice cell, every lattice cell exactly once
+        const long per_cell = g.dim == 2 ? 4 : 8;
+        std::set<long> cells_seen;
+        for (long cidx = 0; cidx < v.ncells; ++cidx)
+          {
+            long mina = 1 << 30, minb = 1 << 30, minc = 1 << 30;
+            std::set<long> corner;
+            bool pole = false;
+            for (long k = 0; k < per_cell; ++k)
+              {
+                const long node = static_cast<long>(v.connectivity.v[static_cast<size_t>(cidx * per_cell + k)]);
+                const long idx = node_index[static_cast<size_t>(node)];
+                if (idx < 0)
+                  {
+                    pole = true;
+                    continue;
+                  }
+                corner.insert(idx);
+              }
+            if (pole)
+              continue;
+            bool good = static_cast<long>(corner.size()) == per_cell;
+            std::vector<std::array<long, 3>> abc;
+            for (long idx : corner)
+              {
+                std::array<long, 3> t;
+                if (g.type == "annulus")
+                  t = {{idx / sz, 0, idx % sz}};
+                else
+                  t = {{idx / (sy * sz), (idx / sz) % sy, idx % sz}};
+                abc.push_back(t);
+                minb = std::min(minb, t[1]);
+                minc = std::min(minc, t[2]);
+              }
+            // the base corner along the first axis (with wrap-around in the annulus)
+            if (good)
+              {
+                std::set<long> as;
+                for (auto &t : abc)
+                  as.insert(t[0]);
+                if (as.size() != 2)
+                  good = false;
+                else
+                  {
+                    const long a0 = *as.begin(), a1 = *as.rbegin();
+                    if (a1 - a0 == 1)
+                      mina = a0;
+                    else if (g.type == "annulus" && a0 == 0 && a1 == n_t - 1)
+                      mina = a1;
+                    else
+                      good = false;
+                  }
+              }
+            if (good)
+              for (auto &t : abc)
+                {
+                  const long da = g.type == "annulus" ? ((t[0] - mina + n_t) % n_t) : t[0] - mina;
+                  if (!(da == 0 || da == 1) || !(t[1] - minb == 0 || t[1] - minb == 1) || !(t[2] - minc == 0 || t[2] - minc == 1))
+                    good = false;
+                }
+            const long key = (mina * (sy + 1) + minb) * (sz + 1) + minc;
+            if (!good || cells_seen.count(key))
+              {
+                add(res, P + "/mesh", "cell", base + ".vtu cell " + std::to_string(cidx) + " is not (or repeats) a cell of the requested lattice", op_index);
+                return;
+              }
+            cells_seen.insert(key);
+          }
+      }
+    else if (g.type == "sphere")
+      {
+        const long shell = 12 * g.nx * g.nx + 2;
+        for (long i = 0; i < np; ++i)
+          {
+            const double px = v.points.v[static_cast<size_t>(3 * i)], py = v.points.v[static_cast<size_t>(3 * i + 1)], pz = v.points.v[static_cast<size_t>(3 * i + 2)];
+            const double rad = std::sqrt(px * px + py * py + pz * pz);
+            const long k = i / shell;
+            const double want = g.z_min + (g.z_max - g.z_min) / static_cast<double>(g.nz) * static_cast<double>(k);
+            if (!close(rad, want, std::max(tol, 1e-7), extent))
+              {
+                std::ostringstream o;
+                o.precision(17);
+                o << base << ".vtu node " << i << " has radius " << rad << ", shell " << k << " is at " << want;
+                add(res, P + "/mesh", "node", o.str(), op_index);
+                return;
+              }
+            double ed = top - rad;
+            if (std::fabs(ed) < 1e-8)
+              ed = 0;
+            if (!close(depth.v[static_cast<size_t>(i)], ed, v.exact ? 1e-8 : 2e-5, extent))
+              {
+                std::ostringstream o;
+                o.precision(17);
+                o << base << ".vtu node " << i << ": Depth = " << depth.v[static_cast<size_t>(i)] << " but the node is " << ed << " below the outer radius";
+                add(res, P + "/depth", "depth", o.str(), op_index);
+                return;
+              }
+          }
+        for (long cidx = 0; cidx < v.ncells; ++cidx)
+          {
+            const long k = cidx / (12 * g.nx * g.nx);
+            for (long c = 0; c < 8; ++c)
+              {
+                const long node = static_cast<long>(v.connectivity.v[static_cast<size_t>(cidx * 8 + c)]);
+                if (node / shell != k + (c >= 4 ? 1 : 0))
+                  {
+                    add(res, P + "/mesh", "cell", base + ".vtu cell " + std::to_string(cidx) + " does not connect shell " + std::to_string(k) + " with the next one", op_index);
+                    return;
+                  }
+              }
+          }
+      }
+    res.counters["mesh_checks"]++;
+
+    // ---- node values == the library at the node (exact formats only)
+    std::unique_ptr<WorldBuilder::World> world;
+    try
+      {
+        simfs::set_faults({});
+        world.reset(new WorldBuilder::World(files[0]));
+      }
+    catch (std::exception &)
+      {
+        return;
+      }
+    std::vector<Prop> props = {Prop{{1, 0, 0}}, Prop{{5, 0, 0}}, Prop{{4, 0, 0}}};
+    for (long c = 0; c < g.compositions; ++c)
+      props.push_back(Prop{{2, static_cast<unsigned>(c), 0}});
+    const Array &T = *find_array(v, "Temperature"), &vel = *find_array(v, "velocity"), &tag = *find_array(v, "Tag");
+    if (v.exact)
+      {
+        for (long i = 0; i < np; ++i)
+          {
+            const double px = v.points.v[static_cast<size_t>(3 * i)], py = v.points.v[static_cast<size_t>(3 * i + 1)], pz = v.points.v[static_cast<size_t>(3 * i + 2)];
+            std::vector<double> o;
+            try
+              {
+                if (g.dim == 2)
+                  o = world->properties(std::array<double, 2> {{px, py}}, depth.v[static_cast<size_t>(i)], props);
+                else
+                  o = world->properties(std::array<double, 3> {{px, py, pz}}, depth.v[static_cast<size_t>(i)], props);
+              }
+            catch (std::exception &)
+              {
+                continue;
+              }
+            res.counters["evaluations"]++;
+            res.counters["node_values_compared"]++;
+            auto same = [](double a, double b)
+            {
+              return std::memcmp(&a, &b, 8) == 0 || (std::isnan(a) && std::isnan(b));
+            };
+            std::string bad;
+            if (!same(T.v[static_cast<size_t>(i)], o[0])) bad = "Temperature";
+            for (int k = 0; k < 3; ++k)
+              if (!same(vel.v[static_cast<size_t>(3 * i + k)], o[static_cast<size_t>(1 + k)])) bad = "velocity";
+            if (!same(tag.v[static_cast<size_t>(i)], o[4])) bad = "Tag";
+            for (long c = 0; c < g.compositions; ++c)
+              if (!same(find_array(v, "Composition " + std::to_string(c))->v[static_cast<size_t>(i)], o[static_cast<size_t>(5 + c)]))
+                bad = "Composition " + std::to_string(c);
+            if (!bad.empty())
+              {
+                std::ostringstream os;
+                os.precision(17);
+                os << base << ".vtu node " << i << " at (" << px << "," << py << "," << pz << ") depth " << depth.v[static_cast<size_t>(i)] << ": stored " << bad
+                   << " differs from the library's answer (T " << T.v[static_cast<size_t>(i)] << " vs " << o[0] << ", tag " << tag.v[static_cast<size_t>(i)] << " vs " << o[4] << ")";
+                add(res, P + "/node-value", bad.substr(0, 4), os.str(), op_index);
+                return;
+              }
+          }
+      }
+
+    // ---- filtered / by-tag files: the reference selection applied to the full mesh
+    const std::vector<std::string> &tags = world->feature_tags;
+    const long per_cell = g.dim == 2 ? 4 : 8;
+    auto check_selection = [&](const std::string &fname, const std::vector<bool> &include) -> bool
+    {
+      auto ff = r.written.find(fname);
+      if (ff == r.written.end())
+        {
+          add(res, P + "/missing-file", "selection", "no file " + fname + " was written", op_index);
+          return false;
+        }
+      const Vtu f = parse_vtu(ff->second);
+      res.counters["evaluations"]++;
+      if (!f.ok)
+        {
+          add(res, P + "/malformed-vtu", "selection", fname + ": " + f.error, op_index);
+          return false;
+        }
+      res.counters["vtu_files_parsed"]++;
+      std::string why2;
+      if (!structure_ok(f, g.dim, g.compositions, why2))
+        {
+          add(res, P + "/malformed-vtu", "selection-structure", fname + ": " + why2, op_index);
+          return false;
+        }
+      // expected cells, as sorted corner coordinates
+      typedef std::vector<std::array<double, 3>> Corners;
+      auto corners = [&](const Vtu &m, long cidx) -> Corners
+      {
+        Corners c;
+        for (long k = 0; k < per_cell; ++k)
+          {
+            const size_t node = static_cast<size_t>(m.connectivity.v[static_cast<size_t>(cidx * per_cell + k)]);
+            c.push_back({{m.points.v[3 * node], m.points.v[3 * node + 1], m.points.v[3 * node + 2]}});
+          }
+        std::sort(c.begin(), c.end());
+        return c;
+      };
+      std::multiset<Corners> want, have;
+      for (long cidx = 0; cidx < v.ncells; ++cidx)
+        {
+          int highest = -1;
+          for (long k = 0; k < per_cell; ++k)
+            {
+              const size_t node = static_cast<size_t>(v.connectivity.v[static_cast<size_t>(cidx * per_cell + k)]);
+              highest = std::max(highest, static_cast<int>(tag.v[node]));
+            }
+          if (highest >= 0 && static_cast<size_t>(highest) < include.size() && include[static_cast<size_t>(highest)])
+            want.insert(corners(v, cidx));
+        }
+      for (long cidx = 0; cidx < f.ncells; ++cidx)
+        have.insert(corners(f, cidx));
+      if (want != have)
+        {
+          add(res, P + "/selection", "cells", fname + " holds " + std::to_string(have.size()) + " cells, the tag rule selects " + std::to_string(want.size())
+              + " of the full mesh (or other cells)", op_index);
+          return false;
+        }
+      // node values unchanged: look every node up in the full mesh by its coordinates
+      std::map<std::array<double, 3>, size_t> where;
+      for (long i = 0; i < np; ++i)
+        where[ {{v.points.v[static_cast<size_t>(3 * i)], v.points.v[static_cast<size_t>(3 * i + 1)], v.points.v[static_cast<size_t>(3 * i + 2)]}}] = static_cast<size_t>(i);
+      for (long i = 0; i < f.npoints; ++i)
+        {
+          const std::array<double, 3> key = {{f.points.v[static_cast<size_t>(3 * i)], f.points.v[static_cast<size_t>(3 * i + 1)], f.points.v[static_cast<size_t>(3 * i + 2)]}};
+          auto it = where.find(key);
+          if (it == where.end())
+            {
+              add(res, P + "/selection", "node", fname + " node " + std::to_string(i) + " is not a node of the full mesh", op_index);
+              return false;
+            }
+          for (size_t a = 0; a < f.point_data.size(); ++a)
+            {
+              const int nc = f.point_data[a].ncomp;
+              for (int k = 0; k < nc; ++k)
+                {
+                  const double x = f.point_data[a].v[static_cast<size_t>(i * nc + k)], y = v.point_data[a].v[it->second * static_cast<size_t>(nc) + static_cast<size_t>(k)];
+                  if (std::memcmp(&x, &y, 8) != 0 && !(std::isnan(x) && std::isnan(y)))
+                    {
+                      add(res, P + "/selection", "value:" + f.point_data[a].name.substr(0, 4), fname + " node " + std::to_string(i) + ": '" + f.point_data[a].name
+                          + "' differs from the full mesh (" + fmt(x) + " vs " + fmt(y) + ")", op_index);
+                      return false;
+                    }
+                }
+            }
+        }
+      res.counters["selection_checks"]++;
+      return true;
+    };
+    size_t expected_files = 1;
+    if (filtered)
+      {
+        std::vector<bool> include(tags.size(), true);
+        for (size_t i = 0; i < tags.size(); ++i)
+          if (tags[i] == "mantle layer")
+            include[i] = false;
+        ++expected_files;
+        if (!check_selection(base + ".filtered.vtu", include))
+          return;
+      }
+    if (by_tag)
+      for (size_t i = 0; i < tags.size(); ++i)
+        {
+          if (tags[i] == "mantle layer")
+            continue;
+          std::vector<bool> include(tags.size(), false);
+          include[i] = true;
+          ++expected_files;
+          if (!check_selection(base + "." + std::to_string(i) + ".vtu", include))
+            return;
+        }
+    if (r.written.size() != expected_files)
+      add(res, P + "/missing-file", "file-set", std::to_string(r.written.size()) + " files were written, " + std::to_string(expected_files) + " expected", op_index);
   }
 }
